@@ -25,7 +25,10 @@ PLAN["C03"] = {"kernels": [r"reduce", r"zeroparents", r"index_of_nulls"],
                "kinds": ["S", "E", "F"], "trusted": KERNEL_TRUST}
 PLAN["C04"] = {"kernels": [r"broadcast_tooffsets", r"compact_offsets"],
                "kinds": ["S", "E", "F"], "trusted": KERNEL_TRUST}
-PLAN["C05"] = {"kernels": [r"_num_", r"RegularArray_num", r"flatten", r"localindex", r"none2empty"],
+PLAN["C05"] = {"kernels": [r"_num_", r"RegularArray_num", r"flatten", r"localindex", r"none2empty",
+                           # num / flatten / local_index below an option node project it first: the count of missing
+                           # values sizes the carry, the carry selects the present ones
+                           r"numnull", r"getitem_nextcarry"],
                "kinds": ["S", "E", "F"], "trusted": KERNEL_TRUST}
 PLAN["C08"] = {"kernels": [r"_fill", r"simplify", r"UnionArray\w*_project", r"regular_index", r"nestedfill"],
                "kinds": ["S", "E", "F"], "trusted": KERNEL_TRUST}
